@@ -13,17 +13,22 @@
 (*   "intermediate" leaf with another name, issued by an intermediate CA   *)
 (*                  (under the configured root) that carries the right name*)
 (*   "ok"           right CA, right name                                   *)
+(*   "namecase" "nameprefix" "namesuffix" "namesan"  right CA, a name that *)
+(*                  differs from the rule's only in letter case / extends  *)
+(*                  it / ends in it / carries it only as a DNS SAN         *)
+(*   "notyet"       right CA, right name, not valid yet                    *)
 (* fault: "none" | "abort" (close after ClientHello) | "stall" (stop after *)
 (* ClientHello and hold the socket) | "garbage" (non-TLS record).          *)
 (* config: rule (a common-name rule is configured), pass (a password too). *)
 (***************************************************************************)
 EXTENDS Integers, Sequences, FiniteSets, TLC
 
-Creds  == {"plain", "nocert", "selfsigned", "foreignca", "expired", "wrongname", "intermediate", "ok"}
+Creds  == {"plain", "nocert", "selfsigned", "foreignca", "expired", "wrongname", "intermediate", "ok",
+           "namecase", "nameprefix", "namesuffix", "namesan", "notyet"}
 Faults == {"none", "abort", "stall", "garbage"}
 
-ChainsToCA(cred) == cred \in {"wrongname", "intermediate", "ok"}
-LeafHasName(cred) == cred \in {"ok", "selfsigned", "foreignca", "expired"}
+ChainsToCA(cred) == cred \in {"wrongname", "intermediate", "ok", "namecase", "nameprefix", "namesuffix", "namesan"}   \* and is valid now
+LeafHasName(cred) == cred \in {"ok", "selfsigned", "foreignca", "expired", "notyet"}
 
 \* may commands of this client be executed at all?
 Admitted(cred, fault, rule) == fault = "none" /\ ChainsToCA(cred) /\ (rule => LeafHasName(cred))
